@@ -161,6 +161,10 @@ Definition render_plain (w : wording_plain) (ch : chain) : str := plain_from w (
 
 (* ------------------------------------------------------------------------------------ what is cited *)
 
+(* the contexts with their index numbers (used to state the order of the entries) *)
+Fixpoint number_from {A} (i : N) (l : list A) : list (N * A) :=
+  match l with [] => [] | x :: r => (i, x) :: number_from (i + 1) r end.
+
 Fixpoint all_stmt_ctxs (cs : list rctx) : list stmt_ctx :=
   match cs with
   | [] => []
